@@ -129,6 +129,7 @@ Fixpoint remove_nth (k : nat) (l : list nat) : list nat :=
   end.
 
 Fixpoint drain (f : nat) (s : state) : state :=
+  if halted s then s else          (* a task was found spinning: the case stops *)
   match ready s with
   | [] => emit EvIdle s
   | e :: r =>
